@@ -1,7 +1,9 @@
 package props
 
 import (
+	"bytes"
 	"fmt"
+	"sync"
 
 	"github.com/free5gc/ike/eap"
 	"github.com/free5gc/ike/message"
@@ -594,6 +596,56 @@ func c19(c *core.Ctx) {
 			k.Violate("panic", "reset-sub: "+pn.Sig(), "panic", panicData(pn, nil))
 		}
 	})
+	// a gateway serving several UEs at once: every goroutine fills its OWN container, but the ARGUMENTS (the configured
+	// NAS / UP addresses, ports, QoS values) are the same few values on all of them
+	c.Family("builders-overlapping-with-shared-arguments", c.N(24, 2400), func(k *core.Case) {
+		addrs := make([][4]byte, 3)
+		for i := range addrs {
+			copy(addrs[i][:], k.R.Bytes(4))
+		}
+		strs := make([]string, len(addrs))
+		for i, a := range addrs {
+			strs[i] = fmt.Sprintf("%d.%d.%d.%d", a[0], a[1], a[2], a[3])
+		}
+		port := k.R.U16() | 1
+		var wg sync.WaitGroup
+		bad := make([]string, 8)
+		for g := 0; g < 8; g++ {
+			wg.Add(1)
+			go func(g int) {
+				defer wg.Done()
+				defer func() {
+					if x := recover(); x != nil {
+						bad[g] = fmt.Sprint("panic: ", x)
+					}
+				}()
+				for n := 0; n < 200 && bad[g] == ""; n++ {
+					var c message.IKEPayloadContainer
+					i1, i2 := (n+g)%3, (n+g+1+n/3)%3
+					c.BuildNotifyNAS_IP4_ADDRESS(strs[i1])
+					c.BuildNotifyUP_IP4_ADDRESS(strs[i2])
+					c.BuildNotifyNAS_TCP_PORT(port)
+					got := bridge.ObservePayloads(c)
+					if len(got) != 3 || got[0].Notify == nil || got[1].Notify == nil || got[2].Notify == nil ||
+						got[0].Notify.Type != 55502 || !bytes.Equal(got[0].Notify.Data, addrs[i1][:]) ||
+						got[1].Notify.Type != 55504 || !bytes.Equal(got[1].Notify.Data, addrs[i2][:]) ||
+						got[2].Notify.Type != 55506 || !bytes.Equal(got[2].Notify.Data, []byte{byte(port >> 8), byte(port)}) {
+						bad[g] = fmt.Sprintf("goroutine %d, round %d: NAS %s, UP %s, port %d built as %v", g, n, strs[i1], strs[i2], port, fmt.Sprint(len(got), " payloads"))
+					}
+				}
+			}(g)
+		}
+		wg.Wait()
+		k.Eval(8 * 200 * 3)
+		for _, b := range bad {
+			if b != "" {
+				k.Violate("builder", "built-payload-differs-from-arguments/overlapping-builders", b, M{"addresses": strs})
+				return
+			}
+		}
+		k.Count("overlapping_builder_runs", 1)
+	})
+	c.Require("overlapping_builder_runs")
 	c.Family("delete-aliasing-note", 1, func(k *core.Case) {
 		var cont message.IKEPayloadContainer
 		spis := []uint32{1, 2}
